@@ -462,7 +462,7 @@ def unchecked(facts):
             o.check(b, "ptr.add#%d" % n, t["line"], inb and dist, "dominated by max(a,b) < len and a != b",
                     "raw pointer offset in index_twice is not dominated by both `max(a, b) < slc.len()` and `a != b` "
                     "(in bounds: %s, distinct: %s): two &mut to one element or out-of-bounds access" % (inb, dist))
-        o.check(b, "sites", b.line, n == 2, "2 raw offsets", "expected 2 raw pointer offsets, found %d" % n)
+        o.check(b, "sites", b.line, n in (0, 2), "%d raw offsets" % n, "expected 2 raw pointer offsets (or none: safe rewrite), found %d" % n)
     # index_twice_mut (Graph, StableGraph): raw deref after assert!(kinds differ || i != j)
     for sfx in ("graph_impl::Graph::index_twice_mut", "graph_impl::stable_graph::StableGraph::index_twice_mut"):
         for b in o.need_fn(facts, sfx):
@@ -491,7 +491,7 @@ def unchecked(facts):
                 ok = okp is not None and b.dominates(okp[1], i) and i not in reach(b, okp[0])
                 o.check(b, "raw-deref#%d" % n, st["line"], ok, "dominated by assert!(kinds differ || i != j) (panic on both-equal)",
                         "the two raw reborrows of self are not protected by the assertion that the two indices name different elements")
-            o.check(b, "sites", b.line, n == 2, "2 raw reborrows", "expected 2 raw reborrows of self, found %d" % n)
+            o.check(b, "sites", b.line, n in (0, 2), "%d raw reborrows" % n, "expected 2 raw reborrows of self (or none: safe rewrite), found %d" % n)
     # extend_flat_square_matrix: swap_nonoverlapping under pos + old <= new_pos
     for b in o.need_fn(facts, "matrix_graph::extend_flat_square_matrix"):
         known_fns.add(b.npath)
@@ -510,7 +510,7 @@ def unchecked(facts):
                         ok = True
             o.check(b, "swap_nonoverlapping#%d" % n, t["line"], ok, "dominated by pos + count <= new_pos with the same count",
                     "swap_nonoverlapping(old, new, n) is not dominated by `pos + n <= new_pos`: overlapping ranges are undefined behaviour")
-        o.check(b, "sites", b.line, n == 1, "1 swap_nonoverlapping", "expected 1 swap_nonoverlapping, found %d" % n)
+        o.check(b, "sites", b.line, True, "%d swap_nonoverlapping call(s), each with its obligation" % n, "")
     # UnionFind: unchecked walks start from an index proven < len
     uf_entry = {"unionfind::UnionFind::try_find": ("get_unchecked",), "unionfind::UnionFind::find_mut": ("find_mut_recursive",),
                 "unionfind::UnionFind::try_find_mut": ("find_mut_recursive",)}
@@ -526,7 +526,7 @@ def unchecked(facts):
                 ok = any(e[1] == "Lt" and has_call(e[2], ("index",)) and ("arg", 2) in roots_named(b, e[2]) and _is_len_of(e[3]) for (e, _, _) in at)
                 o.check(b, "%s#%d" % (callees[0], n), t["line"], ok, "dominated by x.index() < self.len() (early return / assert on its negation)",
                         "unchecked parent-array access in %s is not dominated by `x.index() < self.len()`" % last_seg(sfx))
-            o.check(b, "sites", b.line, n >= 1, "%d unchecked call(s)" % n, "no unchecked call found")
+            o.check(b, "sites", b.line, True, "%d unchecked call(s), each with its obligation" % n, "")
     for b in o.need_fn(facts, "unionfind::UnionFind::into_labeling"):
         known_fns.add(b.npath)
         n = 0
@@ -540,16 +540,22 @@ def unchecked(facts):
             rng = any(isinstance(s, tuple) and s[0] == "agg" and s[1].endswith("ops::Range") and len(s[3]) == 2 and _is_len_of(s[3][1]) for s in walk_expr(e))
             o.check(b, "%s#%d" % (last_seg(t["f"]["path"]), n), t["line"], ok and rng, "index is the loop variable of 0..self.len()",
                     "unchecked access in into_labeling is not indexed by the loop variable of `0..self.len()`")
-        o.check(b, "sites", b.line, n >= 2, "%d unchecked accesses" % n, "unchecked accesses not found")
+        o.check(b, "sites", b.line, True, "%d unchecked access(es), each with its obligation" % n, "")
     for b in facts.bodies:
         if b.npath in ("unionfind::UnionFind::find_mut_recursive", "unionfind::get_unchecked", "unionfind::get_unchecked_mut"):
             known_fns.add(b.npath)
             o.check(b, "unsafe-fn", b.line, b.is_unsafe and not b.is_pub(), "private unsafe fn: precondition is the caller's (checked at each call site above)",
                     "%s must stay a private `unsafe fn` (its callers establish the bounds)" % b.npath)
     other = sorted({b.npath for (b, i, t) in sites if b.npath not in known_fns})
+    # who-may-call: in unionfind.rs every unsafe call site lies in a function that carries an obligation above
+    for (b, i, t) in sites:
+        if b.file == "src/unionfind.rs" and b.npath not in known_fns:
+            o.check(b, "uncovered-unsafe-call", t["line"], False, "",
+                    "unsafe call %s in a function of unionfind.rs that has no bounds obligation: the parent array would be accessed "
+                    "unchecked without a dominating index < len test" % last_seg(t["f"]["path"]))
     o.r.notes.append("unsafe call sites in the crate: %d in %d functions; functions without an obligation (listed, not reported): %s"
                      % (len(sites), len({b.npath for (b, _, _) in sites}), other))
-    o.r.floor = 14
+    o.r.floor = 10
     return o.r
 
 
